@@ -766,8 +766,15 @@ impl Core {
             ReqKind::Write => match fail {
                 Some(e) => Outcome::Unit(Err(e)),
                 None => {
-                    let mut files = self.files.borrow_mut();
-                    files[file].content.write(off, data.as_ref().unwrap());
+                    // with early visibility the write took effect at submit;
+                    // applying it again here would let it overtake a write
+                    // submitted in between (one request, one effect)
+                    let early = self.knobs.borrow().early_visible
+                        && !self.reqs.borrow()[idx].inline;
+                    if !early {
+                        let mut files = self.files.borrow_mut();
+                        files[file].content.write(off, data.as_ref().unwrap());
+                    }
                     Outcome::Unit(Ok(()))
                 }
             },
